@@ -469,8 +469,11 @@ def check_property(pid, tier, seed, replay=None, verbose=True):
         seen_sig.add(f["sig"])
         h = hashlib.sha1((f["sig"] + json.dumps(f["case"], sort_keys=True)).encode()).hexdigest()[:12]
         rp = os.path.join(VERIF, "replays", "%s-%s.json" % (pid, h))
-        json.dump(dict(property=pid, sig=f["sig"], detail=f["detail"], target=f["target"], run_args=f.get("run_args", []),
-                       case=f["case"], tier=tier, seed=seed), open(rp, "w"), indent=1)
+        if replay is None:
+            json.dump(dict(property=pid, sig=f["sig"], detail=f["detail"], target=f["target"], run_args=f.get("run_args", []),
+                           case=f["case"], tier=tier, seed=seed), open(rp, "w"), indent=1)
+        else:
+            rp = replay
         ok = True
         if replay is None and f["case"].get("kind") not in ("crash-no-case",) and spec.get("replayable", True):
             # re-run the saved case three times; all must fail again
@@ -491,6 +494,16 @@ def check_property(pid, tier, seed, replay=None, verbose=True):
                     pass
         if ok:
             confirmed.append((f, rp))
+            # shrink the grammar of the first confirmed corpus failure (inputs / scripts are minimal already)
+            if replay is None and len(confirmed) == 1 and os.environ.get("VERIF_SHRINK", "1") != "0" and f["case"].get("kind") == "corpus":
+                try:
+                    from vf import shrink
+                    info = shrink.shrink(pid, rp, tier, seed, budget_s=int(os.environ.get("VERIF_SHRINK_BUDGET", "120")), log=log)
+                    if info:
+                        log("[%s] grammar of the first failure shrunk from %d to %d nodes in %d replays (%.0fs): %s"
+                            % (pid, info["from_nodes"], info["to_nodes"], info["steps"], info["seconds"], info["grammar"][:300]))
+                except Exception as e:  # shrinking is a convenience: never let it hide the violation
+                    log("[%s] shrinking failed: %r" % (pid, e))
 
     wall = time.time() - t_start
     uniq = []
